@@ -5,7 +5,7 @@
    includes are walked first, then it is merged (post-order), and its name is recorded.  The
    merge order itself is compared on every run with an independent reading of the property
    through the trace parameter. *)
-From RV Require Import Model.Node Proofs.NamesFacts Proofs.NodeFacts Proofs.WalkFold.
+From RV Require Import Model.Node Proofs.WfFacts Proofs.NamesFacts Proofs.NodeFacts Proofs.WalkFold Proofs.NodeTotal.
 
 (** Each class is merged the first time it is reached and never again: the record of merged
     classes never holds a name twice. *)
@@ -97,6 +97,17 @@ Theorem C01_walk_always_returns :
       render_impl (S (List.length tbl)) fi cfg tbl self seen [] root <> OutOfFuel.
 Proof. exact include_walk_returns. Qed.
 Eval cbv in "ASSUMPTIONS-OF C01_walk_always_returns"%string. Print Assumptions C01_walk_always_returns.
+
+(** ... and unconditionally (no assumption on the rendering of include names): for every table
+    of classes with clean keys and every include graph, cyclic ones included, Node::render yields
+    one and the same value or error from some fuels on. *)
+Theorem C01_node_render_always_returns :
+  forall cfg tbl, clean_table tbl -> Forall (fun ce => loc_ok (ce_loc ce)) tbl ->
+  forall n meta, wf (VMap (n_params n)) ->
+    exists f0 fi0 r, (forall f fi, f0 <= f -> fi0 <= fi -> node_render f fi cfg tbl n meta = r) /\
+                     ((exists v, r = Ok v) \/ (exists e, r = Err e)).
+Proof. exact node_render_total. Qed.
+Eval cbv in "ASSUMPTIONS-OF C01_node_render_always_returns"%string. Print Assumptions C01_node_render_always_returns.
 
 (** Non-vacuity: a diamond with a reference-bearing include; the class list and the trace show
     post-order, once, node last. *)
